@@ -3,6 +3,7 @@ use crate::Ctx;
 
 pub mod c01;
 pub mod c04;
+pub mod c05;
 pub mod c12;
 pub mod c20;
 
@@ -10,6 +11,7 @@ pub fn run(prop: &str, ctx: &mut Ctx) -> Option<Report> {
     match prop {
         "C01" => Some(c01::run(ctx)),
         "C04" => Some(c04::run(ctx)),
+        "C05" => Some(c05::run(ctx)),
         "C12" => Some(c12::run(ctx)),
         "C20" => Some(c20::run(ctx)),
         _ => None,
